@@ -16,7 +16,8 @@ from . import common, par
 from . import refmachine as rm
 
 PROP = 'C14'
-UNKNOWN = (0, 1, 31, 255, 136)
+# bytes that are no instruction, and the eight instructions of the language that no interpreter of the toolkit can replay
+UNKNOWN = (0, 1, 31, 255, 136, 0x10, 0x11, 0x12, 0x13, 0x14, 0x17, 0x18, 0x19)
 
 
 def boundaries(buf: bytes):
@@ -306,6 +307,11 @@ def main(argv=None) -> int:
     seed = ('pattern (phi0 -> phi0)', 'publish', 'pattern (a -> b)', 'publish', 'next phase',
             'pattern (∃ x0 . x0)', 'publish', 'pattern (phi0 -> phi0)', 'publish', 'next phase')
     f3 = run_bfs(chk, raw, 4 if thorough else 3, (5, 4, 14), agg, 'proof-phase-seed/raw', seeds=(seed,))
+    # two saved terms that PRINT alike (constraints are not printed) and are loaded one after the other: labels passed to
+    # save/load are built from the printed form, as the toolkit's own callers do
+    twins = ('metavar 0', 'save', 'pop', 'metavar 0 e_fresh x0', 'save', 'pop')
+    run_bfs(chk, ['load 0', 'load 1', 'pop', 'implies', 'save', 'metavar 0', 'metavar 0 e_fresh x0'], 4 if thorough else 3, (5, 4, 14), agg,
+            'print-twins-in-memory', seeds=(twins,))
     chk.set('states', agg.get('states', 0))
     chk.set('transitions', agg.get('transitions', 0))
     chk.set('traces_validated_against_impl', agg.get('roundtrips', 0))
